@@ -302,6 +302,18 @@ theorem invc_flose (h : InvC L c g F ch st dz stp iv) (hs : ch = .ready → st' 
   · intro i hi
     exact imgok_follower (h.img i hi) (agr_follower_holds_nothing log_empty_get)
 
+/-- the follower's partition is destroyed under the (possibly open) stream: its log is empty again and
+the channel is out of step (ghost flag) until the next handshake -/
+theorem invc_fclose (h : InvC L c g F ch st dz stp iv) : InvC L c g Log.empty ch st true stp iv := by
+  have hl := h.lint
+  refine ⟨hl, h.ackg, ⟨by simp [Log.empty], by simp [Log.empty], noHoles_empty⟩, ?_, (fun _ d _ => by cases d),
+    agr_follower_holds_nothing log_empty_get, ?_⟩
+  · intro _
+    simp only [Log.empty]
+    have := lint_cons_ge hl; omega
+  · intro i hi
+    exact imgok_follower (h.img i hi) (agr_follower_holds_nothing log_empty_get)
+
 /-- a new image of the current state is pushed -/
 theorem invc_snap (h : InvC L c g F ch st dz stp iv) :
     InvC L c g F ch st dz stp ({ L := L, cons := c, gack := g } :: iv) := by
